@@ -79,7 +79,7 @@ class HTTPConnection(Mapping[str, Any], MoreInfoFromHeaderMixin):
         """
         Query parameter. It is a multi-value mapping.
         """
-        return QueryParams(self["QUERY_STRING"])
+        return QueryParams(self.get("QUERY_STRING", ""))
 
     @cached_property
     def headers(self) -> Headers:
